@@ -27,6 +27,8 @@ def main(argv=None):
     s.add_argument("what", choices=["determinism", "sensitivity", "imports", "all"])
     s.add_argument("--props", default="")
     s.add_argument("--seeds", type=int, default=0)
+    s.add_argument("--names", default="")
+    s.add_argument("--runs", type=int)
     sub.add_parser("list")
     args = ap.parse_args(argv)
 
